@@ -15,6 +15,9 @@ def main():
         d = os.path.join(root, sid)
         meta = json.load(open(os.path.join(d, "meta.json")))
         prop = meta["property"]
+        if meta.get("obsolete"):
+            print(sid, "obsolete (no longer a violation):", meta["obsolete"][:120], flush=True)
+            continue
         try:
             a = sh(f"git -C /repo apply {os.path.join(d, 'patch.diff')}")
             if a.returncode != 0:
